@@ -65,6 +65,7 @@ def fail3(x):
 
 
 PYFUNCS['fail3'] = fail3
+PYFUNCS['tostr'] = lambda x: f's{x}'
 
 
 def base_iter(source, sub, sentinel):
